@@ -988,6 +988,13 @@ func (e *SpecEnv) callExpr(v *ast.CallExpr) Val {
 			r := e.uninterp(v.Args, e.c.ar.idxSort()).(Scalar)
 			r.Ty = types.Typ[types.Int]
 			return r
+		case "lastresult":
+			// lastresult("callee"): result of the most recent call of callee on this path (unconstrained if none)
+			name, _ := strconv.Unquote(v.Args[0].(*ast.BasicLit).Value)
+			if r, ok := e.s.lastRes[name]; ok {
+				return r
+			}
+			return Scalar{e.c.freshConst(e.s, "nocall", e.c.ar.idxSort()), e.c.ar.idxSort(), types.Typ[types.Int]}
 		case "called":
 			// called("name"): number of calls logged to callee name on this path
 			name, _ := strconv.Unquote(v.Args[0].(*ast.BasicLit).Value)
